@@ -1,0 +1,83 @@
+// SPDX-License-Identifier: MPL-2.0
+
+//! Verification-only access points (built only with `--cfg prio_verif`). Thin wrappers that expose
+//! crate-private routines unchanged to the external conformance harness; no logic lives here.
+
+use crate::fp::{FieldOps, FieldParameters};
+
+/// Raw word-level field operation of the parameter set `set`, on internal (Montgomery-domain)
+/// representations. Returns `None` for an unknown set or operation.
+pub fn raw_op(set: &str, op: &str, x: u128, y: u128) -> Option<u128> {
+    macro_rules! dispatch {
+        ($fp:ty, $w:ty) => {{
+            let (x, y) = (x as $w, y as $w);
+            Some(match op {
+                "add" => <$fp as FieldOps<$w>>::add(x, y),
+                "sub" => <$fp as FieldOps<$w>>::sub(x, y),
+                "neg" => <$fp as FieldOps<$w>>::neg(x),
+                "mul" => <$fp as FieldOps<$w>>::mul(x, y),
+                "pow" => <$fp as FieldOps<$w>>::pow(x, y),
+                "inv" => <$fp as FieldOps<$w>>::inv(x),
+                "montgomery" => <$fp as FieldOps<$w>>::montgomery(x),
+                "residue" => <$fp as FieldOps<$w>>::residue(x),
+                _ => return None,
+            } as u128)
+        }};
+    }
+    match set {
+        "FP17" => dispatch!(crate::fp::FP17, u8),
+        "FP193" => dispatch!(crate::fp::FP193, u8),
+        "FP251" => dispatch!(crate::fp::FP251, u8),
+        "FP241" => dispatch!(crate::fp::FP241, u8),
+        "FP12289" => dispatch!(crate::fp::FP12289, u16),
+        "FP65521" => dispatch!(crate::fp::FP65521, u16),
+        "FP61441" => dispatch!(crate::fp::FP61441, u16),
+        "FP40961" => dispatch!(crate::fp::FP40961, u16),
+        "FP65521S" => dispatch!(crate::fp::FP65521S, u16),
+        "FP61441S" => dispatch!(crate::fp::FP61441S, u16),
+        "FP12289S" => dispatch!(crate::fp::FP12289S, u16),
+        "FP32" => dispatch!(crate::fp::FP32, u32),
+        "FP64" => dispatch!(crate::fp::FP64, u64),
+        "FP128" => dispatch!(crate::fp::FP128, u128),
+        _ => None,
+    }
+}
+
+/// Constants `(PRIME, MU, R2, G, NUM_ROOTS, BIT_MASK, HALF, ROOTS)` of the parameter set `set`.
+#[allow(clippy::type_complexity)]
+pub fn raw_params(set: &str) -> Option<(u128, u128, u128, u128, usize, u128, u128, Vec<u128>)> {
+    macro_rules! params {
+        ($fp:ty, $w:ty) => {
+            Some((
+                <$fp as FieldParameters<$w>>::PRIME as u128,
+                <$fp as FieldParameters<$w>>::MU as u128,
+                <$fp as FieldParameters<$w>>::R2 as u128,
+                <$fp as FieldParameters<$w>>::G as u128,
+                <$fp as FieldParameters<$w>>::NUM_ROOTS,
+                <$fp as FieldParameters<$w>>::BIT_MASK as u128,
+                <$fp as FieldParameters<$w>>::HALF as u128,
+                <$fp as FieldParameters<$w>>::ROOTS
+                    .iter()
+                    .map(|r| *r as u128)
+                    .collect(),
+            ))
+        };
+    }
+    match set {
+        "FP17" => params!(crate::fp::FP17, u8),
+        "FP193" => params!(crate::fp::FP193, u8),
+        "FP251" => params!(crate::fp::FP251, u8),
+        "FP241" => params!(crate::fp::FP241, u8),
+        "FP12289" => params!(crate::fp::FP12289, u16),
+        "FP65521" => params!(crate::fp::FP65521, u16),
+        "FP61441" => params!(crate::fp::FP61441, u16),
+        "FP40961" => params!(crate::fp::FP40961, u16),
+        "FP65521S" => params!(crate::fp::FP65521S, u16),
+        "FP61441S" => params!(crate::fp::FP61441S, u16),
+        "FP12289S" => params!(crate::fp::FP12289S, u16),
+        "FP32" => params!(crate::fp::FP32, u32),
+        "FP64" => params!(crate::fp::FP64, u64),
+        "FP128" => params!(crate::fp::FP128, u128),
+        _ => None,
+    }
+}
